@@ -1641,6 +1641,13 @@ def _imd_names(imd):
     # the alias itself also matches; the property's local is the one that is re-assigned / tested later: prefer the last in the alias chain
     need(dv_, "anchor lost: <dim> = getattr(self, name) in init_mapped_dim")
     DIM = dv_[-1]
+    # the property's local is the one written back with setattr(self, name, <local>) at the end, when there is such a statement
+    back = {norm(c.args[2]) for c in ast.walk(imd.node) if isinstance(c, ast.Call) and norm(c.func) == "setattr" and len(c.args) == 3 and norm(c.args[0]) == "self" and norm(c.args[1]) == PN and isinstance(c.args[2], ast.Name)}
+    if len(back) == 1 and back != {DIM}:
+        other = back.pop()
+        # ... provided it takes the getattr local's value on some path (an alias, or one arm of a normalisation)
+        if any(isinstance(n, ast.Assign) and isinstance(n.targets[0], ast.Name) and n.targets[0].id == other and norm(n.value) in dv_ for n in ast.walk(imd.node)):
+            raise AnalysisError("idiom changed: init_mapped_dim keeps the property's value in two locals (`%s` as read, `%s` as written back); the rules follow one" % (DIM, other))
     nv_ = []
     for n in nodes:
         if isinstance(n, ast.Assign) and isinstance(n.targets[0], ast.Name):
